@@ -30,7 +30,7 @@ def parse_case(case):
             deliv.append((int(t), n if n == 'E' else int(n)))
     return h.strip(), calls, w.strip(), deliv
 
-EV_RE = re.compile(r'^([WHCBXE])(\d+)(?::(.*))?@(\d+)$')
+EV_RE = re.compile(r'^([WHCBXEw])(\d+)(?::(.*))?@(\d+)$')
 
 def parse_out(line):
     toks = line.split(' ')
@@ -285,7 +285,28 @@ class Check(DiffCheck):
                     out.append(self._case(int(h[2]), cc, [x.strip() for x in w.split(';')] if w != '-' else [], deliv))
         return out
 
+    F34_WITNESS = 'K 1 | 0,-1,8,16 ; 100,-1,8,16,5000 | H,2,16 ; B,16,5 ; H,1,4 ; B,4,9 | 1000,40 ; 9000,16 ; 9500,44'
+
+    def _replay_f34(self, ctx):
+        """Known finding F34 (not in the model: it needs a writev that blocks): a response that arrives while its
+        request is still blocked in writev.  Replayed on the implementation only.  Reproduces + listed as known ->
+        nothing to do (DiffCheck prints the KNOWN-FINDING line); reproduces + not listed -> VIOLATION; clean -> note."""
+        out = run_cases(ctx['impl_exe'], [self.F34_WITNESS], ctx['tmp'], 'f34', nshards=1, timeout=self.case_timeout, env=self.impl_env())[0] or ''
+        listed = any(f.get('id') == 'F34' and f.get('status') == 'known' for f in load_known_findings('C11'))
+        msg = self.oracle(self.F34_WITNESS, self.canon(out))
+        cov = getattr(self, 'extra_coverage', None) or {}
+        cov['F34_witness'] = dict(case=self.F34_WITNESS, impl=out[:400], reproduces=bool(msg), listed_known=listed)
+        self.extra_coverage = cov
+        if msg and not listed:
+            return [dict(kind='oracle', message='F34 witness (response during a blocked writev): ' + msg, case=self.F34_WITNESS, model_out='(not modelled: blocking writev)', impl_out=out)]
+        if not msg:
+            print('[C11] NOTE: the F34 witness no longer shows an access after return on this tree: %s' % out[:300])
+        return []
+
     def extra(self, ctx):
+        if getattr(self, 'hooks', True) and ctx.get('impl_exe'):
+            v = self._replay_f34(ctx)
+            if v: return v
         if not getattr(self, 'hooks', True):
             print('[C11] NOTE: libphoton built from %s has no PHOTON_VERIF clock/idle hooks (repo_patches/E2-hooks.diff not applied): '
                   'the model-vs-implementation tie was SKIPPED; proofs and extraction were checked.' % REPO)
